@@ -803,6 +803,98 @@ class Gen:
             return spec, (exported or {"id": "int"})
         return spec
 
+    def nested_params(self):
+        """a statement whose named parameters get values from .params() on several nesting levels: an embedded
+        statement (subquery / CTE / scalar subquery / EXISTS / IN-subquery / compound member / textual subquery)
+        gives a value, the enclosing one overrides it, gives another name a value, or leaves it alone; sibling
+        embedded statements may also give the same name different values"""
+        r = self.rng
+        names = ["pv", "pw"]
+
+        def inner(key, alias, name, give=True, extra=None):
+            cols = [["c", ["col", alias, "id"]]]
+            where = [["bin", r.choice(["<", ">", "!=", "<="]), ["col", alias, r.choice([n for n, t in sorted(TABLE_COLS[key].items()) if t == "int"])],
+                      ["bind", name, "int", {"novalue": True} if r.random() < 0.6 else {}]]]
+            if extra:
+                where.append(extra)
+            sp = {"k": "select", "orm": False, "from": [["alias", key, alias]], "joins": [], "cols": cols, "where": where}
+            if give:
+                sp["params_map"] = {name: "int"}
+            return sp
+
+        shape = r.choice(["subq", "cte", "scalar", "exists", "in_sub", "compound", "text_sub", "siblings_from", "siblings_where", "two_level"])
+        n1 = r.choice(names)
+        n2 = n1 if r.random() < 0.6 else _other(r, names, n1)      # conflicting or not
+        okey = r.choice(["a", "b"])
+        outer_where = []
+        if r.random() < 0.6:   # the enclosing statement uses a named parameter itself
+            outer_where.append(["bin", r.choice(["<", ">", "!="]), ["col", okey, "id"], ["bind", n2, "int", {"novalue": True} if r.random() < 0.5 else {}]])
+        spec = {"k": "select", "orm": False, "from": [["table", okey]], "joins": [], "cols": [["c", ["col", okey, "id"]]],
+                "where": outer_where, "order_by": [[["col", okey, "id"], "asc", None]]}
+        ikey = r.choice(["b", "c"])
+        if shape in ("subq", "cte"):
+            nm = self.fresh("np")
+            isp = inner(ikey, self.fresh("ni"), n1)
+            spec["from"] = [[shape, isp, nm] + ([{}] if shape == "cte" else [])]
+            spec["cols"] = [["c", ["col", nm, "id"]]]
+            spec["order_by"] = [[["col", nm, "id"], "asc", None]]
+            spec["where"] = [["bin", w[1], ["col", nm, "id"], w[3]] for w in outer_where]
+        elif shape == "scalar":
+            al = self.fresh("ni")
+            isp = inner(ikey, al, n1, extra=["bin", "==", ["col", al, "id"], ["col", okey, "id"]])
+            spec["cols"].append(["label", self.fresh("sc"), ["scalar", isp]])
+        elif shape == "exists":
+            al = self.fresh("ni")
+            spec["where"].append(["exists", inner(ikey, al, n1, extra=["bin", "==", ["col", al, "id"], ["col", okey, "id"]])])
+        elif shape == "in_sub":
+            spec["where"].append(["in_sub", ["col", okey, "id"], inner(ikey, self.fresh("ni"), n1), r.random() < 0.3])
+        elif shape == "compound":
+            members = [inner(okey, self.fresh("ni"), n1, give=r.random() < 0.8) for _ in range(r.choice([2, 2, 3]))]
+            if r.random() < 0.5:
+                members[-1]["where"][0][3][1] = n2   # a member using the other / the same name
+                if "params_map" in members[-1]:
+                    members[-1]["params_map"] = {n2: "int"}
+            spec = {"k": "compound", "op": r.choice(["union_all", "union"]), "selects": members}
+        elif shape == "text_sub":
+            t = {"a": "ta", "b": "tb", "c": "tc"}[ikey]
+            spec = {"k": "text", "sql": f"SELECT id FROM {t} WHERE id > :{n1} AND id != :{n2}x ORDER BY id", "binds": [n2 + "x"],
+                    "params_map": {n1: "int"}, "columns": [["id", "Integer"]], "wrap": "subquery"}
+            if r.random() < 0.7:
+                spec["outer_params_map"] = {r.choice([n1, n2 + "x"]): "int"}
+            return spec
+        elif shape == "siblings_from":
+            a1, a2 = self.fresh("np"), self.fresh("np")
+            spec["from"] = [["subq", inner(ikey, self.fresh("ni"), n1), a1], [r.choice(["subq", "cte"]), inner(ikey, self.fresh("ni"), n2), a2]]
+            if spec["from"][1][0] == "cte":
+                spec["from"][1].append({})
+            spec["cols"] = [["c", ["col", a1, "id"]], ["label", self.fresh("sb"), ["col", a2, "id"]]]
+            spec["where"] = [["bin", "==", ["col", a1, "id"], ["col", a2, "id"]]]
+            spec["order_by"] = [[["col", a1, "id"], "asc", None]]
+        elif shape == "siblings_where":
+            spec["where"].append(["in_sub", ["col", okey, "id"], inner(ikey, self.fresh("ni"), n1), False])
+            al = self.fresh("ni")
+            spec["where"].append(["exists", inner(ikey, al, n2, extra=["bin", "==", ["col", al, "id"], ["col", okey, "id"]])])
+        else:  # two_level: subquery inside a subquery, three levels of .params()
+            nm, nm2 = self.fresh("np"), self.fresh("np")
+            innermost = inner(ikey, self.fresh("ni"), n1)
+            mid = {"k": "select", "orm": False, "from": [["subq", innermost, nm2]], "joins": [], "cols": [["c", ["col", nm2, "id"]]],
+                   "where": [["bin", "!=", ["col", nm2, "id"], ["bind", n2, "int", {"novalue": True}]]]}
+            if r.random() < 0.7:
+                mid["params_map"] = {r.choice([n1, n2]): "int"}
+            spec["from"] = [["subq", mid, nm]]
+            spec["cols"] = [["c", ["col", nm, "id"]]]
+            spec["order_by"] = [[["col", nm, "id"], "asc", None]]
+            spec["where"] = [["bin", w[1], ["col", nm, "id"], w[3]] for w in outer_where]
+        # the enclosing level: override, give the other name, both, or nothing
+        c = r.random()
+        if c < 0.4:
+            spec["params_map"] = {n1: "int"}
+        elif c < 0.6:
+            spec["params_map"] = {n2: "int"}
+        elif c < 0.8:
+            spec["params_map"] = {n1: "int", n2: "int"}
+        return spec
+
     def orm_eager(self):
         """ORM entity select with an eager / lazy loader option whose relationship carries criteria
         (``Rel.and_(...)``) with bound values of every form (plain literal, anonymous bind, literal_execute
@@ -937,7 +1029,7 @@ class Gen:
 
     def stmt(self, kinds=None):
         r = self.rng
-        k = r.choice(kinds or ["select"] * 10 + ["compound"] * 2 + ["insert"] * 3 + ["update"] * 3 + ["delete"] * 2 + ["text"] * 2
+        k = r.choice(kinds or ["select"] * 10 + ["compound"] * 2 + ["insert"] * 3 + ["update"] * 3 + ["delete"] * 2 + ["text"] * 2 + ["nested_params"] * 3
                      + (["orm_eager"] * 3 if self.orm_ratio > 0 else []))
         if k == "select":
             return self.select()
@@ -1018,6 +1110,11 @@ class Builder:
             if flags.get("literal_execute"):
                 kw["literal_execute"] = True
             typ = self.type_(flags["type"]) if flags.get("type") else self.tag_type(kind)
+            if flags.get("novalue"):
+                # a named parameter without a value of its own: it gets one from .params() / execute()
+                self.vals.log.pop()
+                self.named.pop(name, None)
+                return sa.bindparam(name, type_=typ, **kw)
             if flags.get("callable"):
                 # value supplied by a callable evaluated at execution time (the form the ORM lazy loader uses)
                 return sa.bindparam(name, callable_=(lambda v=v: v), type_=typ, **kw)
@@ -1282,6 +1379,9 @@ class Builder:
             s = s.execution_options(**spec["exec_opts"])
         if spec.get("params") and self.named:
             s = s.params(**{k: self.lit("int") for k in sorted(self.named)})
+        if spec.get("params_map"):
+            # .params() on *this* nesting level (inner statements may carry their own, also for the same names)
+            s = s.params(**{k: self.lit(kind) for k, kind in sorted(spec["params_map"].items())})
         return s
 
     def option(self, o, scope):
@@ -1317,6 +1417,8 @@ class Builder:
             u = u.order_by(c.desc() if direction == "desc" else c.asc())
         if spec.get("limit"):
             u = u.limit(self.lit("posint"))
+        if spec.get("params_map"):
+            u = u.params(**{k: self.lit(kind) for k, kind in sorted(spec["params_map"].items())})
         w = spec.get("wrap")
         if w and ("id" not in u.selected_columns or "v" not in u.selected_columns):
             raise Inapplicable("compound columns renamed")
@@ -1421,11 +1523,16 @@ class Builder:
         s = sa.text(spec["sql"])
         if spec.get("binds"):
             s = s.bindparams(**{n: self.lit("int") for n in spec["binds"]})
+        if spec.get("params_map"):
+            s = s.params(**{k: self.lit(kind) for k, kind in sorted(spec["params_map"].items())})
         if spec.get("columns"):
             s = s.columns(*[sa.column(n, self.type_(t)) for n, t in spec["columns"]])
             if spec.get("wrap") == "subquery":
                 sq = s.subquery("tx")
-                return sa.select(sq).where(sq.c.id != self.lit("int")).order_by(sq.c.id)
+                out = sa.select(sq).where(sq.c.id != self.lit("int")).order_by(sq.c.id)
+                if spec.get("outer_params_map"):
+                    out = out.params(**{k: self.lit(kind) for k, kind in sorted(spec["outer_params_map"].items())})
+                return out
         return s
 
     def build(self, spec):
@@ -1600,6 +1707,18 @@ def _node_mutations(node, rng, frommap=None, top=True):
             out.append(("subq_to_cte", ["cte", node[1], node[2], {}]))
     elif isinstance(node, dict):
         k = node.get("k")
+        if node.get("params_map") is not None and k in ("select", "compound", "text"):
+            pm = node["params_map"]
+            n = dict(node)
+            n.pop("params_map")
+            out.append(("params_level_drop", n))
+            n = dict(node)
+            n["params_map"] = dict(pm, **{("pw" if "pv" in pm else "pv"): "int"})
+            out.append(("params_level_name", n))
+        elif k in ("select", "compound") and not top and rng.random() < 0.5:
+            n = dict(node)
+            n["params_map"] = {rng.choice(["pv", "pw"]): "int"}
+            out.append(("params_level_add", n))
         if k == "select":
             def w(tag, **kv):
                 n = dict(node)
@@ -1769,7 +1888,7 @@ def _node_mutations(node, rng, frommap=None, top=True):
     return out
 
 
-def perturb(spec, rng, n=8, prefer=("typearg", "typewrap", "bindcallable", "param_keys", "bindflag", "for_update_skip_locked", "prefix_dialect", "inlen")):
+def perturb(spec, rng, n=8, prefer=("params_level_drop", "params_level_name", "typearg", "typewrap", "bindcallable", "param_keys", "bindflag", "for_update_skip_locked", "prefix_dialect", "inlen")):
     """up to ``n`` (tag, spec') near-copies, each differing from ``spec`` in one attribute;
     rare tags listed in ``prefer`` are taken first when available"""
     cands = []
